@@ -646,7 +646,14 @@ func (d *decoder) gcolAt(addr uint64, owner string) *gcol {
 			// Free space: its size includes the object header and it must run
 			// to the end of the collection. A zero-filled tail also lands here.
 			if osize != 0 && p+osize != uint64(len(body)) {
-				d.finding("gcol-free-space", addr+p, "free-space object of %d bytes at offset %d does not end at the collection end %d", osize, p, len(body))
+				// One particular deviation is common enough to get its own class: the
+				// size leaves out the free-space object's own header. Any other extent
+				// is a different defect.
+				cls := "gcol-free-space-extent"
+				if p+osize+objHdr == uint64(len(body)) {
+					cls = "gcol-free-space"
+				}
+				d.finding(cls, addr+p, "free-space object of %d bytes at offset %d does not end at the collection end %d", osize, p, len(body))
 			}
 			break
 		}
